@@ -45,42 +45,46 @@ type RunsClause struct {
 }
 
 type Contract struct {
-	Key       string
-	Pkg       string // package path of the file it was declared in
-	Props     []string
-	Trusted   bool
-	Family    *regexp.Regexp
-	FamKind   string
-	Params    []string
-	Results   []string
-	Requires  []*SExpr
-	Ensures   []*SExpr
-	EnsSrc    []string
-	EnsProp   []string // per-clause property restriction ("" = every property the block is tagged with)
-	GoEnsProp []string
-	GoEnsures []*SExpr // evaluated at the normal end of every goroutine the function spawns
-	NoPanic   bool
-	NoEscape  bool
-	GoSafe    bool // spawn rule: no panic may escape a goroutine started by this function
+	Key           string
+	Pkg           string // package path of the file it was declared in
+	Props         []string
+	Trusted       bool
+	Family        *regexp.Regexp
+	FamKind       string
+	Params        []string
+	Results       []string
+	Requires      []*SExpr
+	Ensures       []*SExpr
+	EnsSrc        []string
+	OnExit        []*SExpr // onexit E: checked at every exit, returns and escaping panics alike (after the deferred calls ran)
+	OnExitSrc     []string
+	OnExitProp    []string
+	EnsProp       []string // per-clause property restriction ("" = every property the block is tagged with)
+	GoEnsProp     []string
+	GoEnsures     []*SExpr // evaluated at the normal end of every goroutine the function spawns
+	NoPanic       bool
+	NoEscape      bool
+	GoSafe        bool // spawn rule: no panic may escape a goroutine started by this function
 	AssumeNoPanic bool
-	Safe      bool // implicit panic sites of the function's own code are obligations; callee panics propagate
-	Pure      bool
-	Uses      []string
-	Invs      map[int][]*SExpr
-	Steps     map[int][]*SExpr
-	Ghosts    []AtClause
-	At        map[string][]AtClause
-	Callsites []CallsiteClause
-	Runs      []RunsClause // the function synchronously invokes a function-typed argument exactly once
-	Modifies  []string // frame: the only heap locations the function may write (Type.field | elems | maps | ptrs)
-	HasFrame  bool
-	Stable    []string // heap fields (Type.field) assumed not to be written by any callee of this function
-	RawSMT    []string
-	Replay    string
-	File      string
-	Line      int
-	atUsed    map[string]bool
-	MustAt    map[string]bool // anchors that must exist even in family members (written at! `...`)
+	Safe          bool // implicit panic sites of the function's own code are obligations; callee panics propagate
+	Pure          bool
+	Uses          []string
+	Invs          map[int][]*SExpr
+	Steps         map[int][]*SExpr
+	Ghosts        []AtClause
+	At            map[string][]AtClause
+	Callsites     []CallsiteClause
+	Runs          []RunsClause // the function synchronously invokes a function-typed argument exactly once
+	Modifies      []string     // frame: the only heap locations the function may write (Type.field | elems | maps | ptrs)
+	HasFrame      bool
+	Stable        []string // heap fields (Type.field) assumed not to be written by any callee of this function
+	RawSMT        []string
+	Replay        string
+	File          string
+	Line          int
+	atUsed        map[string]bool
+	OptAt         map[string]bool // anchors that may be absent (written at? `...`)
+	MustAt        map[string]bool // anchors that must exist even in family members (written at! `...`)
 }
 
 func (c *Contract) hasProp(id string) bool {
@@ -96,7 +100,7 @@ type ContractSet struct {
 	ByKey    map[string]*Contract
 	Order    []string
 	Families []*Contract
-	Theories map[string][]string // name -> smt lines
+	Theories map[string][]string  // name -> smt lines
 	SpecSigs map[string][2]string // uninterpreted spec functions: name -> (argument sorts, result sort)
 	Files    []string
 	Assumes  []string // every `assume` clause found (reported)
@@ -287,6 +291,19 @@ func (cs *ContractSet) loadFile(path, pkgPath string) error {
 					cur.EnsSrc = append(cur.EnsSrc, rest)
 					cur.EnsProp = append(cur.EnsProp, only)
 				}
+			case "onexit":
+				only := ""
+				if strings.HasPrefix(rest, "@") {
+					only, rest, _ = strings.Cut(rest[1:], " ")
+					rest = strings.TrimSpace(rest)
+				}
+				x, err := parse(rest)
+				if err != nil {
+					return err
+				}
+				cur.OnExit = append(cur.OnExit, x)
+				cur.OnExitSrc = append(cur.OnExitSrc, rest)
+				cur.OnExitProp = append(cur.OnExitProp, only)
 			case "goensures":
 				only := ""
 				if strings.HasPrefix(rest, "@") {
@@ -354,7 +371,7 @@ func (cs *ContractSet) loadFile(path, pkgPath string) error {
 					return err
 				}
 				cur.Ghosts = append(cur.Ghosts, AtClause{Kind: "ghost", Name: strings.TrimSpace(n), Expr: x})
-			case "at", "at!":
+			case "at", "at!", "at?":
 				a := strings.Index(rest, "`")
 				// closing backquote: the last backquote followed by optional #k and a keyword
 				b := -1
@@ -362,7 +379,7 @@ func (cs *ContractSet) loadFile(path, pkgPath string) error {
 					if k := strings.LastIndex(rest, "`"+kw); k > b {
 						b = k
 					}
-					if k := regexp.MustCompile("`#[0-9]+" + kw).FindAllStringIndex(rest, -1); len(k) > 0 && k[len(k)-1][0] > b {
+					if k := regexp.MustCompile("`#[0-9]+"+kw).FindAllStringIndex(rest, -1); len(k) > 0 && k[len(k)-1][0] > b {
 						b = k[len(k)-1][0]
 					}
 				}
@@ -375,6 +392,12 @@ func (cs *ContractSet) loadFile(path, pkgPath string) error {
 					num, t2, _ := strings.Cut(tail, " ")
 					text += num
 					tail = strings.TrimSpace(t2)
+				}
+				if word == "at?" { // optional anchor: the clause applies where the call exists, its absence is no failure
+					if cur.OptAt == nil {
+						cur.OptAt = map[string]bool{}
+					}
+					cur.OptAt[text] = true
 				}
 				if word == "at!" {
 					if cur.MustAt == nil {
